@@ -109,6 +109,7 @@ fn run_c14(sc: &Scenario, keep_log: bool) -> (Vec<Violation>, Outcome) {
         d.keep_log = keep_log;
         // the size of the record most recently written: the allowance above the limit
         let mut allow: u64 = 0;
+        let mut last_stored: u64 = 0;
         let mut pending: Vec<(usize, usize)> = Vec::new(); // (conn, frame index) sent since the last delivery
         for ev in &sc.events {
             if let Ev::Send { c, .. } = ev {
@@ -129,7 +130,12 @@ fn run_c14(sc: &Scenario, keep_log: bool) -> (Vec<Violation>, Outcome) {
                     if stores && ok && pending_is_last(&f, &d) {
                         match d.exec.record_len(&f.req.key) {
                             Some(l) => {
-                                allow = l;
+                                // (a command that answers success without rewriting anything - e.g. an
+                                // append of nothing - wrote no record: the previous allowance stands)
+                                let changed = d.exec.probe().map(|p| p.stored_bytes != last_stored).unwrap_or(true);
+                                if changed || l > allow {
+                                    allow = l;
+                                }
                                 out.count("stores_checked", 1);
                             }
                             None => {
@@ -145,6 +151,7 @@ fn run_c14(sc: &Scenario, keep_log: bool) -> (Vec<Violation>, Outcome) {
                     if p.stored_bytes > limit {
                         out.count("states_above_limit_within_allowance", 1);
                     }
+                    last_stored = p.stored_bytes;
                     out.count("probes", 1);
                 }
                 if !viols.is_empty() {
@@ -416,7 +423,9 @@ fn run_c15(sc: &Scenario, keep_log: bool) -> (Vec<Violation>, Outcome) {
                     let info = op_info(f.req.opcode);
                     let st = f.response.as_ref().map(|r| r.status).unwrap_or(0);
                     let stores = matches!(info.kind, Kind::Set | Kind::Add | Kind::Replace | Kind::Append | Kind::Prepend | Kind::Incr | Kind::Decr);
-                    if stores && st == status::OK {
+                    // (only for commands that went through the policy layer: they change the counter or the content)
+                    let went_through = acc_now != acc_prev || now.stored_bytes != prev.stored_bytes;
+                    if stores && st == status::OK && went_through {
                         if let Some(l) = d.exec.record_len(&f.req.key) {
                             if acc_now > limit.saturating_add(l) && seen_sigs.insert("sweep-leaves-usage-over-limit") {
                                 viols.push(Violation::new(
